@@ -1,7 +1,10 @@
 #!/usr/bin/env python3
 """Apply a textual mutation to /repo, run checks, restore. usage:
    trymut.py 'C19,C04' path/in/repo 'old text' 'new text' [count]"""
-import subprocess, sys, os
+import subprocess, sys, os, tempfile
+os.environ['VERIF_EVIDENCE_DIR'] = tempfile.mkdtemp(prefix='wpverif-ev-')
+import atexit, shutil
+atexit.register(shutil.rmtree, os.environ['VERIF_EVIDENCE_DIR'], True)
 props, rel, old, new = sys.argv[1:5]
 p = os.path.join('/repo', rel)
 src = open(p).read()
